@@ -477,9 +477,15 @@ func (c *Ctx) unaryTensorOp(op string, fn *ssa.Function, a []Value) Value {
 	return c.retTensorErr(c.finishResult(res, fo, s.dt, out), nil, fn.Signature)
 }
 
-// mathUF applies the uninterpreted function standing for a math routine.
-// float32 tensors in gorgonia use math32 (float32 kernels): separate symbols.
+// mathUF applies the uninterpreted function standing for a math routine the way
+// gorgonia's kernels call it: math32.X for float32 data, math.X for float64.
 func (c *Ctx) mathUF(name string, x *smt.Term) *smt.Term {
+	switch x.Sort.K {
+	case smt.KFP32:
+		return c.applyMath("m32."+name, x)
+	case smt.KFP64:
+		return c.applyMath(name, x)
+	}
 	if x.IsConst() && x.Sort.K == smt.KReal && x.R.Sign() == 0 {
 		switch name {
 		case "exp":
